@@ -139,6 +139,8 @@ pub fn run(a: &[String]) -> i32 {
     std::fs::create_dir_all(&workdir).ok();
     let rt = tokio::runtime::Builder::new_multi_thread().worker_threads(4).enable_all().build().unwrap();
     let secs = std::time::Duration::from_secs(60);
+    // consecutive cases over the same tables share one set of Parquet files
+    let mut cached: Option<(String, Db)> = None;
     for c in cases {
         let tables: Vec<(TableData, usize, usize)> = c["tables"]
             .as_array()
@@ -148,13 +150,18 @@ pub fn run(a: &[String]) -> i32 {
             .collect();
         let sql = c["sql"].as_str().unwrap().to_string();
         let units: Vec<String> = c["out_types"].as_array().map(|a| a.iter().map(|v| v.as_str().unwrap().to_string()).collect()).unwrap_or_default();
-        let db = match build(&tables, &workdir) {
-            Ok(d) => d,
-            Err(e) => {
-                out.put(&json!({"id": c["id"], "plan": {"k": "err", "cls": "Setup", "msg": e}}));
-                continue;
+        let tkey = c["tables"].to_string();
+        if cached.as_ref().map(|(k, _)| *k != tkey).unwrap_or(true) {
+            cached = None;
+            match build(&tables, &workdir) {
+                Ok(d) => cached = Some((tkey.clone(), d)),
+                Err(e) => {
+                    out.put(&json!({"id": c["id"], "plan": {"k": "err", "cls": "Setup", "msg": e}}));
+                    continue;
+                }
             }
-        };
+        }
+        let db = &cached.as_ref().unwrap().1;
         let plan = decide(&db.ctx, &sql);
         let mut rec = json!({"id": c["id"], "plan": plan});
         if c["exec"].as_bool().unwrap_or(false) {
@@ -164,7 +171,7 @@ pub fn run(a: &[String]) -> i32 {
             let mut dist = Vec::new();
             for n in c["nodes"].as_array().cloned().unwrap_or_default() {
                 let n = n.as_u64().unwrap_or(2) as usize;
-                let peer = match peer_of(&db, &workdir) {
+                let peer = match peer_of(db, &workdir) {
                     Ok(p) => p,
                     Err(e) => {
                         dist.push(json!({"n": n, "out": {"k": "err", "cls": "Setup", "msg": e}}));
